@@ -589,19 +589,23 @@ func checkTreeEmptiedOnlyOnBodyFailure(p *Program, r *Report, rule string) {
 		return
 	}
 	pe := newPathExplorer(p, et)
+	pe.Inline = true
+	paths := pe.Paths()
 	var nilStores []ssa.Instruction
-	for _, st := range storesToField(et, "text/template", "Template", "Tree") {
-		if isNilConst(st.Val) {
-			nilStores = append(nilStores, st)
+	for _, g := range pe.Funcs() {
+		for _, st := range storesToField(g, "text/template", "Template", "Tree") {
+			if isNilConst(st.Val) {
+				nilStores = append(nilStores, st)
+			}
 		}
-	}
-	for _, st := range storesToField(et, pkgTemplate, "Template", "Tree") {
-		if isNilConst(st.Val) {
-			nilStores = append(nilStores, st)
+		for _, st := range storesToField(g, pkgTemplate, "Template", "Tree") {
+			if isNilConst(st.Val) {
+				nilStores = append(nilStores, st)
+			}
 		}
 	}
 	n := 0
-	for _, pth := range pe.Paths() {
+	for _, pth := range paths {
 		if _, ok := pth.End().(*ssa.Return); !ok {
 			continue
 		}
